@@ -233,6 +233,8 @@ def _from_bits_iterable(ns, l, k):
 defop("from_bits_it", _from_bits_iterable, ["L", "i"], lambda a, cfg, ts: len(a[0]) > 0, weight=0.4, params={1: ("k", 0, 4)})
 defop("bit", lambda ns, l, k: l[k % len(l)], ["L", "i"], lambda a, cfg, ts: len(a[0]) > 0, params={1: ("k", 0, 40)})
 defop("val", lambda ns, x: x.val(), ["IBF"], weight=0.5)
+# printing a traced value (repr / str / format) has no effect on the trace; the operation yields nothing
+defop("fmt", lambda ns, x: ("%r %s" % (x, x), "{}".format(x)) and None, ["IBFA"], weight=0.3)
 defop("ite", lambda ns, c, x, y: ns.br.if_then_else(c, x, y), ["Bb", "IBFi", "IBFi"], weight=2.0)
 defop("if_else", lambda ns, c, x, y: c.if_else(x, y), ["B", "Ii", "Ii"], weight=0.5)
 # LinComb.if_else: the condition is an integer wire holding 0 or 1 (not a declared boolean)
@@ -241,7 +243,7 @@ defop("toB", lambda ns, x: ns.bo.LinCombBool(x), ["I"], lambda a, cfg, ts: a[0] 
 defop("ensurebool", lambda ns, x: ns.bo.LinCombBool._ensurebool(x), ["IBi"], lambda a, cfg, ts: a[0] in (0, 1), weight=0.3)
 defop("toF", lambda ns, x: ns.fx.LinCombFxp(x), ["I"], weight=0.7)
 defop("ensurefxp", lambda ns, x: ns.fx.LinCombFxp._ensurefxp(x), ["IBFif"], weight=0.3)
-defop("array", lambda ns, *xs: ns.ar.Array(list(xs)), ["Ii", "Ii", "Ii"], weight=0.7)
+defop("array", lambda ns, *xs: ns.ar.Array(list(xs)), ["IBFi", "IBFi", "IBFi"], weight=0.7)      # elements of any traced kind, mixed
 defop("aget", lambda ns, a, i: a[i], ["A", "Ii"], lambda a, cfg, ts: 0 <= a[1] < len(a[0]), weight=1.5)
 defop("aset", lambda ns, a, i, v: a.__setitem__(i, v), ["A", "Ii", "Ii"], lambda a, cfg, ts: 0 <= a[1] < len(a[0]), weight=1.5)
 defop("lin_comb", lambda ns, a, b, c, d: ns.la.lin_comb([a, b], [c, d]), ["Ii", "Ii", "I", "I"], weight=0.3)
